@@ -329,4 +329,14 @@ inductive PyResult (α : Type) where
 /-- `try: x except <classes>: ..` : is the exception one of those the handler names -/
 def caught (catches : List Exc) (e : Exc) : Bool := catches.contains e
 
+/-! ## wave 6: what `vDDDTypes` holds - a date, a datetime, a time, a timedelta, or a pair of those (a period) -/
+
+inductive PyDDD where
+  | date (d : PyDate)
+  | dt (t : PyDateTime)
+  | time (t : PyTime)
+  | dur (d : TD)
+  | period (a b : PyDDD)
+deriving Repr, Inhabited
+
 end ICal.PyRT
